@@ -21,7 +21,10 @@ import time
 
 ROOT = os.path.dirname(os.path.dirname(os.path.abspath(__file__)))
 SPEC = os.path.join(ROOT, "spec")
-HARNESS = os.path.join(ROOT, "harness")
+# FV_HARNESS: a scratch copy of harness/ whose Cargo.toml points at a scratch worktree of /repo
+# (sensitivity experiments only; no evidence is written)
+HARNESS = os.environ.get("FV_HARNESS") or os.path.join(ROOT, "harness")
+ALT = bool(os.environ.get("FV_HARNESS"))
 WORK = os.path.join(ROOT, "work")
 EVIDENCE = os.path.join(ROOT, "evidence")
 TLA_CP = "/opt/veriftools/tla/tla2tools.jar:/opt/veriftools/tla/CommunityModules-deps.jar"
@@ -152,7 +155,7 @@ class Ctx:
         self.level = level
         self.replay_path = replay
         self.t0 = time.time()
-        self.work = os.path.join(WORK, prop.lower())
+        self.work = os.path.join(WORK, prop.lower() + ("-alt" if ALT else ""))
         if replay is None:
             shutil.rmtree(self.work, ignore_errors=True)
         os.makedirs(self.work, exist_ok=True)
@@ -333,12 +336,18 @@ class Ctx:
             self.samples.append(obj)
 
     def _known(self):
-        p = os.path.join(ROOT, "known_findings.json")
-        if not os.path.exists(p):
-            return []
-        with open(p) as f:
-            data = json.load(f)
-        return [k for k in data.get("findings", []) if k.get("property") == self.prop and k.get("status") == "known"]
+        """status=known entries for this property from known_findings/*.json (committed; never
+        written at run time)."""
+        d = os.path.join(ROOT, "known_findings")
+        out = []
+        if os.path.isdir(d):
+            for fn in sorted(os.listdir(d)):
+                if fn.endswith(".json"):
+                    with open(os.path.join(d, fn)) as f:
+                        data = json.load(f)
+                    out += [k for k in data.get("findings", [])
+                            if k.get("property") == self.prop and k.get("status") == "known"]
+        return out
 
     @staticmethod
     def _matches(entry, rec):
@@ -402,7 +411,7 @@ class Ctx:
             "wall_s": round(wall, 2),
             "violations": len(violations),
         }
-        if self.replay_path is None:
+        if self.replay_path is None and not ALT:
             os.makedirs(EVIDENCE, exist_ok=True)
             with open(os.path.join(EVIDENCE, "%s.json" % self.prop), "w") as f:
                 json.dump(ev, f, indent=1, sort_keys=True)
